@@ -28,6 +28,26 @@ MAIN = "roughenough_client::main"
 GRID = [0, 1, 999, 999999, 1000000, 1000001, 1759397777123456, 253402300799999999, 2 ** 63 - 1]
 
 
+def c01mod():
+    import importlib
+    return importlib.import_module("rules.C01")
+
+
+def tr_first(data):
+    return data[0]
+
+
+def tuple_version(t, v):
+    """Replace every `<anything>.version` field read by the protocol version v (after binding to callers the owner is another function's self)."""
+    if not isinstance(t, tuple) or not t:
+        return t
+    if t[0] == "field" and t[2] == "version":
+        return ("enum", VERSION, v)
+    if t[0] in ("int", "str", "bytes", "enum", "obj", "zst", "static", "fnref", "top", "param"):
+        return t
+    return tuple(tuple_version(x, v) if isinstance(x, tuple) else x for x in t)
+
+
 def run(ctx):
     W = World(ctx)
     P = ctx.prog
@@ -147,11 +167,57 @@ def run(ctx):
                         tp = tagpath(W, W.subst_fields(data[1], ("param", fn.path, 1), hfields))
                         if tp and tp[1]:
                             client_acc[tp[1][-1]] = strip_generics(data[0][1])
-    for role in ("DELE", "SREP"):
-        ctx.check("context-agreement", role, role in client_acc and client_acc.get(role) == server_acc.get(role),
-                  "%s context: both sides use %s" % (role, callee_name(server_acc.get(role, "?"))),
-                  "%s is signed under %s by the server but checked under %s by the client" % (role, server_acc.get(role), client_acc.get(role)))
+    # Compare the context *bytes* per protocol version (the accessor used may be spelled differently on the two sides)
+    def version_subst(t, fnpath, v):
+        fn_ = P.fns[fnpath]
+        if not isinstance(t, tuple) or not t:
+            return t
+        if t[0] == "param" and t[1] == fnpath and fn_.locals[t[2]]["ty"].replace("&", "").strip().endswith("version::Version"):
+            return ("enum", VERSION, v)
+        if t[0] == "field" and t[2] == "version" and isinstance(t[1], tuple) and t[1][0] == "param":
+            return ("enum", VERSION, v)
+        if t[0] in ("int", "str", "bytes", "enum", "obj", "zst", "static", "fnref", "top"):
+            return t
+        return tuple(version_subst(x, fnpath, v) if isinstance(x, tuple) else x for x in t)
 
+    server_ctx, client_ctx = {}, {}
+    for fnp, role in ((sm.MAKE_CERT, "DELE"), (sm.MAKE_SREP, "SREP")):
+        ev = W.ev(fnp)
+        seq = sm.sign_sequence(W, ev, (1, ("signer",)))
+        ups = [s_ for s_ in seq if s_[0] == "update"]
+        if ups:
+            first = ups[0][1]
+            pieces = c01mod().expand_data(W, [first]) or [first]
+            for v in VERSIONS:
+                server_ctx[(role, v)] = ev.resolve(version_subst(pieces[0], fnp, v))
+    S01 = c01mod().predicate_closure(ctx, W)
+    for fn in P.fns.values():
+        if fn.impl_self != HANDLER or fn.path in S01:
+            continue
+        for bb, t in fn.calls():
+            if any(x in S01 for x in P.call_targets(t)):
+                tr = c01mod().verify_triple(ctx, W, fn.path, bb, S01)
+                if tr is None:
+                    continue
+                data = c01mod().expand_data(W, tr[1])
+                if data and len(data) >= 2:
+                    raw_first = data[0]
+                    data = c01mod().bind_up(ctx, W, fn, [W.subst_fields(d, ("param", fn.path, 1), hfields) for d in data], hfields)
+                    tp = tagpath(W, data[-1])
+                    if tp and tp[1]:
+                        for v in VERSIONS:
+                            # the handler's own `version` field / a Version parameter stands for the protocol in use
+                            first = version_subst(raw_first, fn.path, v)
+                            if any(isinstance(x, tuple) and x and x[0] == "param" and x[1] == fn.path and x[2] > 1 for x in values.subterms(first)):
+                                first = version_subst(c01mod().bind_up(ctx, W, fn, [raw_first], {})[0], fn.path, v)
+                                first = tuple_version(first, v)
+                            client_ctx[(tp[1][-1], v)] = W.ev(fn.path).resolve(first)
+    for role in ("DELE", "SREP"):
+        for v in VERSIONS:
+            sc, cc = server_ctx.get((role, v)), client_ctx.get((role, v))
+            ok = sc is not None and sc == cc and sc[0] == "bytes"
+            ctx.check("context-agreement", "%s/%s" % (role, v), ok, "%s context for %s: both sides use %s" % (role, v, fmt(sc)),
+                      "%s for %s is signed under %s by the server but checked under %s by the client" % (role, v, fmt(sc), fmt(cc)))
     # ------------------------------------------------------------------ (3) unit agreement
     ext = [bb for bb, t in main.calls() if strip_generics(t["fn"].get("path", "")).endswith("ResponseHandler::extract_time")]
     if len(ext) != 1:
